@@ -27,7 +27,7 @@ def keyOf (f : Flight) : Node × Nat := (f.adv.origin, f.adv.seq)
 def stable : Op → Bool
   | .deliver _ _ _ => true
   | .dup _ _ _ => true
-  | .announce _ => true
+  | .announce _ _ => true
   | .dump => true
   | _ => false
 
@@ -411,6 +411,7 @@ theorem conv_step {lk : Node → Node → Bool} {n o sq : Nat} {L : List RAd} {s
       hC.closed, hC.stored⟩
   cases op with
   | connect a b => cases hst
+  | disconnect a b => cases hst
   | replay a b ord => cases hst
   | withdraw a => cases hst
   | drop a b i => cases hst
@@ -441,40 +442,52 @@ theorem conv_step {lk : Node → Node → Bool} {n o sq : Nat} {L : List RAd} {s
         exact conv_process (fl := (tick s).flight) hirr hrange hT (List.mem_of_getElem? hget) hs hd
           (fun g hg => hg) (fun g hg => Or.inl hg)
     · exact hT
-  | announce c =>
+  | announce c hint =>
     simp only [step, stepCore]
     split
     · rename_i hc
-      have hseen : ∀ x, ((setNode (tick s) c { (tick s).nodes c with seq := ((tick s).nodes c).seq + 1 }).nodes x).seen
+      have hseen : ∀ x, ((setNode (tick s) c { (tick s).nodes c with
+          seq := ((tick s).nodes c).seq + (announceAdvs c ((tick s).nodes c) hint).length }).nodes x).seen
           = (s.nodes x).seen := by
         intro x; simp only [setNode_nodes]; split
         · rename_i hx; subst hx; rfl
         · rfl
-      have htab : ∀ x, ((setNode (tick s) c { (tick s).nodes c with seq := ((tick s).nodes c).seq + 1 }).nodes x).tab
+      have htab : ∀ x, ((setNode (tick s) c { (tick s).nodes c with
+          seq := ((tick s).nodes c).seq + (announceAdvs c ((tick s).nodes c) hint).length }).nodes x).tab
           = (s.nodes x).tab := by
         intro x; simp only [setNode_nodes]; split
         · rename_i hx; subst hx; rfl
         · rfl
+      have hnew : ∀ g, g ∈ (announceAdvs c ((tick s).nodes c) hint).flatMap
+          (fun m => (peersOf (tick s) c).map (fun p => ({ src := c, dst := p, adv := m } : Flight))) →
+          g.adv.wd = false ∧ keyOf g ≠ (o, sq) := by
+        intro g hg
+        rcases List.mem_flatMap.1 hg with ⟨m, hm, hgm⟩
+        rcases List.mem_map.1 hgm with ⟨p, _, rfl⟩
+        have h := mem_announceAdvs hm
+        refine ⟨h.wd, ?_⟩
+        intro hk
+        simp only [keyOf, Prod.mk.injEq] at hk
+        have h1 := h.seq_gt
+        have h2 := hC.ctr
+        rw [h.origin] at hk
+        rw [hk.1] at h1
+        simp only [tick_nodes] at h1
+        omega
       refine ⟨hC.n_eq, hC.mh, hC.links, ?_, ?_, ?_, ?_, ?_⟩
       · show sq ≤ ((setNode (tick s) c _).nodes o).seq
         simp only [setNode_nodes]; split
-        · rename_i hx; subst hx; exact Nat.le_succ_of_le hC.ctr
+        · rename_i hx; subst hx; exact Nat.le_trans hC.ctr (Nat.le_add_right _ _)
         · exact hC.ctr
       · intro g hg
         rcases List.mem_append.1 hg with hg | hg
         · exact hC.nowd g hg
-        · rcases List.mem_map.1 hg with ⟨p, _, rfl⟩
-          rfl
+        · exact (hnew g hg).1
       · intro g hg hgk
         have hg' : g ∈ s.flight := by
           rcases List.mem_append.1 hg with hg | hg
           · exact hg
-          · exfalso
-            rcases List.mem_map.1 hg with ⟨p, _, rfl⟩
-            simp only [keyOf, announceAdv, Prod.mk.injEq, tick_nodes] at hgk
-            have := hC.ctr
-            rw [← hgk.1] at this
-            omega
+          · exact absurd hgk (hnew g hg).2
         have := hC.frames g hg' hgk
         exact ⟨by unfold Marked; rw [hseen]; exact this.src,
           fun y hy => by unfold Marked; rw [hseen]; exact this.seenBy y hy, this.dst, this.path, this.routes⟩
@@ -498,56 +511,87 @@ theorem conv_run {lk : Node → Node → Bool} {n o sq : Nat} {L : List RAd}
     exact ih (step s op) (conv_step hirr hrange hC (hst op List.mem_cons_self))
       (fun o' ho' => hst o' (List.mem_cons_of_mem _ ho'))
 
-/-- The invariant holds right after the announcement. -/
-theorem conv_announce (s0 : Net) (o : Node) (ho : o < s0.n) (hmh : s0.maxHops = 0)
+/-- Two advertisements of one announcement with the same sequence number are the same one. -/
+theorem announceAdvsAux_seq_inj {self : Node} (gs : List (List RAd)) (seq : Nat) {m m' : Adv}
+    (hm : m ∈ announceAdvsAux self gs seq) (hm' : m' ∈ announceAdvsAux self gs seq) (h : m.seq = m'.seq) :
+    m = m' := by
+  induction gs generalizing seq with
+  | nil => simp [announceAdvsAux] at hm
+  | cons g t ih =>
+    simp only [announceAdvsAux] at hm hm'
+    rcases List.mem_cons.1 hm with hm | hm <;> rcases List.mem_cons.1 hm' with hm' | hm'
+    · rw [hm, hm']
+    · exfalso
+      obtain ⟨_, _, _, _, _, _, h5, _, _⟩ := mem_announceAdvsAux t (seq + 1) hm'
+      rw [hm] at h; simp only at h; omega
+    · exfalso
+      obtain ⟨_, _, _, _, _, _, h5, _, _⟩ := mem_announceAdvsAux t (seq + 1) hm
+      rw [hm'] at h; simp only at h; omega
+    · exact ih (seq + 1) hm hm'
+
+/-- The invariant holds right after the announcement, for each advertisement `m` it consists of
+    (one per group of at most 255 routes). -/
+theorem conv_announce (s0 : Net) (o : Node) (hint : List (List RAd)) (m : Adv)
+    (hm : m ∈ announceAdvs o (s0.nodes o) hint) (ho : o < s0.n) (hmh : s0.maxHops = 0)
     (hirr : ∀ x, linked s0 x x = false)
     (hrange : ∀ x p, linked s0 x p = true → p < s0.n)
-    (hfresh : ∀ x, (o, (s0.nodes o).seq + 1) ∉ (s0.nodes x).seen)
-    (hnoold : ∀ f, f ∈ s0.flight → keyOf f ≠ (o, (s0.nodes o).seq + 1))
+    (hfresh : ∀ x sq, (s0.nodes o).seq < sq → (o, sq) ∉ (s0.nodes x).seen)
+    (hnoold : ∀ f, f ∈ s0.flight → f.adv.origin = o → f.adv.seq ≤ (s0.nodes o).seq)
     (hnowd : ∀ f, f ∈ s0.flight → f.adv.wd = false) :
-    Conv (linked s0) s0.n o ((s0.nodes o).seq + 1) (s0.nodes o).locals (step s0 (.announce o)) := by
+    Conv (linked s0) s0.n o m.seq m.routes (step s0 (.announce o hint)) := by
   have ho' : o < (tick s0).n := ho
-  have hseen : ∀ x, ((step s0 (.announce o)).nodes x).seen = (s0.nodes x).seen := by
+  have hA := mem_announceAdvs hm
+  have hseen : ∀ x, ((step s0 (.announce o hint)).nodes x).seen = (s0.nodes x).seen := by
     intro x
     simp only [step, stepCore]; rw [if_pos ho']
     simp only [setNode_nodes]; split
     · rename_i hx; subst hx; rfl
     · rfl
-  have hflight : (step s0 (.announce o)).flight = s0.flight ++
-      (peersOf s0 o).map (fun p => ({ src := o, dst := p, adv := announceAdv o (s0.nodes o) } : Flight)) := by
+  have hflight : (step s0 (.announce o hint)).flight = s0.flight ++
+      (announceAdvs o (s0.nodes o) hint).flatMap (fun m =>
+        (peersOf s0 o).map (fun p => ({ src := o, dst := p, adv := m } : Flight))) := by
     simp only [step, stepCore]; rw [if_pos ho']; rfl
-  have hnotmarked : ∀ x, Marked (step s0 (.announce o)) o (o, (s0.nodes o).seq + 1) x → x = o := by
+  have hnotmarked : ∀ x, Marked (step s0 (.announce o hint)) o (o, m.seq) x → x = o := by
     intro x hx
     rcases hx with hx | hx
     · exact hx
-    · rw [hseen] at hx; exact absurd hx (hfresh x)
+    · rw [hseen] at hx; exact absurd hx (hfresh x _ hA.seq_gt)
   refine ⟨step_n _ _, (step_maxHops _ _).trans hmh, ?_, ?_, ?_, ?_, ?_, ?_⟩
   · intro a b
     simp only [linked, step, stepCore]; rw [if_pos ho']; rfl
-  · rw [MM.C14.announce_seq s0 o ho]; exact Nat.le_refl _
+  · rw [MM.C14.announce_seq s0 o hint ho]; exact hA.seq_le
   · intro g hg
     rw [hflight] at hg
     rcases List.mem_append.1 hg with hg | hg
     · exact hnowd g hg
-    · rcases List.mem_map.1 hg with ⟨p, _, rfl⟩
-      rfl
+    · rcases List.mem_flatMap.1 hg with ⟨m', hm', hgm⟩
+      rcases List.mem_map.1 hgm with ⟨p, _, rfl⟩
+      exact (mem_announceAdvs hm').wd
   · intro f hf hfk
     rw [hflight] at hf
+    simp only [keyOf, Prod.mk.injEq] at hfk
     rcases List.mem_append.1 hf with hf | hf
-    · exact absurd hfk (hnoold f hf)
-    · rcases List.mem_map.1 hf with ⟨p, hp, rfl⟩
+    · have := hnoold f hf hfk.1
+      have := hA.seq_gt
+      omega
+    · rcases List.mem_flatMap.1 hf with ⟨m', hm', hgm⟩
+      rcases List.mem_map.1 hgm with ⟨p, hp, rfl⟩
+      have heq : m' = m := announceAdvsAux_seq_inj _ _ hm' hm hfk.2
+      subst heq
       have hpo : p ≠ o := by
         intro h
         have := (mem_peersOf hp).1
         rw [h, hirr] at this; cases this
       refine ⟨Or.inl rfl, ?_, ?_, ?_, ?_⟩
       · intro y hy
-        simp only [announceAdv, List.mem_singleton] at hy
+        simp only [hA.seenBy, List.mem_singleton] at hy
         exact Or.inl hy
-      · simp only [announceAdv, List.mem_singleton]; exact hpo
-      · intro y hy; exact hy
+      · simp only [hA.seenBy, List.mem_singleton]; exact hpo
+      · intro y hy
+        simp only [hA.path] at hy
+        simp only [hA.seenBy]; exact hy
       · intro r hr
-        exact ⟨r, by simp only [announceAdv]; exact List.mem_append_left _ hr, rfl, rfl⟩
+        exact ⟨r, hr, rfl, rfl⟩
   · intro x hx p hp
     have hxo := hnotmarked x hx
     subst hxo
@@ -555,11 +599,11 @@ theorem conv_announce (s0 : Net) (o : Node) (ho : o < s0.n) (hmh : s0.maxHops = 
     have hpeer : p ∈ peersOf s0 x := by
       unfold peersOf
       exact List.mem_filter.2 ⟨List.mem_range.2 hpn, hp⟩
-    refine Or.inr ⟨⟨x, p, announceAdv x (s0.nodes x)⟩, ?_, rfl, rfl, rfl⟩
+    refine Or.inr ⟨⟨x, p, m⟩, ?_, by simp only [keyOf, hA.origin], rfl, rfl⟩
     rw [hflight]
-    exact List.mem_append_right _ (List.mem_map.2 ⟨p, hpeer, rfl⟩)
+    exact List.mem_append_right _ (List.mem_flatMap.2 ⟨m, hm, List.mem_map.2 ⟨p, hpeer, rfl⟩⟩)
   · intro x hx
-    rw [hseen] at hx; exact absurd hx (hfresh x)
+    rw [hseen] at hx; exact absurd hx (hfresh x _ hA.seq_gt)
 
 /-- Agents connected to `o` by a path of links. -/
 inductive Reach (lk : Node → Node → Bool) (o : Node) : Node → Prop where
@@ -577,29 +621,59 @@ theorem conv_quiescent {lk : Node → Node → Bool} {n o sq : Nat} {L : List RA
     · exact h
     · exact absurd hk (hq f hf)
 
-/-- C12 (convergence). After origin `o` announces with a fresh sequence number `sq`, under any
-    schedule of deliveries / duplicate deliveries / further announcements on the stable topology,
-    once no frame of that announcement is left in flight (reliable links), every agent connected to
-    `o` has handled the announcement and holds every CIDR / domain / forward route `o` advertised,
-    with origin `o` and a sequence number ≥ `sq`. -/
-theorem C12_converges (s0 : Net) (o : Node) (ops : List Op)
+/-- C12 (convergence). Origin `o` announces (one advertisement `m` per group of at most 255 routes,
+    each with a fresh sequence number). Under any schedule of deliveries / duplicate deliveries /
+    further announcements on the stable topology, once no frame of advertisement `m` is left in
+    flight (reliable links), every agent connected to `o` has handled it and holds every CIDR /
+    domain / forward route it carries, with origin `o` and a sequence number ≥ `m.seq`. -/
+theorem C12_converges (s0 : Net) (o : Node) (hint : List (List RAd)) (ops : List Op) (m : Adv)
+    (hm : m ∈ announceAdvs o (s0.nodes o) hint)
     (ho : o < s0.n) (hmh : s0.maxHops = 0)
     (hirr : ∀ x, linked s0 x x = false) (hrange : ∀ x p, linked s0 x p = true → p < s0.n)
-    (hfresh : ∀ x, (o, (s0.nodes o).seq + 1) ∉ (s0.nodes x).seen)
-    (hnoold : ∀ f, f ∈ s0.flight → keyOf f ≠ (o, (s0.nodes o).seq + 1))
+    (hfresh : ∀ x sq, (s0.nodes o).seq < sq → (o, sq) ∉ (s0.nodes x).seen)
+    (hnoold : ∀ f, f ∈ s0.flight → f.adv.origin = o → f.adv.seq ≤ (s0.nodes o).seq)
     (hnowd : ∀ f, f ∈ s0.flight → f.adv.wd = false)
     (hst : ∀ op, op ∈ ops → stable op = true)
-    (hquiet : ∀ f, f ∈ (run (step s0 (.announce o)) ops).flight → keyOf f ≠ (o, (s0.nodes o).seq + 1)) :
+    (hquiet : ∀ f, f ∈ (run (step s0 (.announce o hint)) ops).flight → keyOf f ≠ (o, m.seq)) :
     ∀ x, Reach (linked s0) o x → x ≠ o →
-      (o, (s0.nodes o).seq + 1) ∈ ((run (step s0 (.announce o)) ops).nodes x).seen ∧
-      ∀ r, r ∈ (s0.nodes o).locals → r.kind ≠ 3 →
-        ∃ e, e ∈ ((run (step s0 (.announce o)) ops).nodes x).tab ∧ CopyOf o ((s0.nodes o).seq + 1) r e := by
+      (o, m.seq) ∈ ((run (step s0 (.announce o hint)) ops).nodes x).seen ∧
+      ∀ r, r ∈ m.routes → r.kind ≠ 3 →
+        ∃ e, e ∈ ((run (step s0 (.announce o hint)) ops).nodes x).tab ∧ CopyOf o m.seq r e := by
   intro x hx hxo
-  have hC := conv_run hirr hrange _ ops (conv_announce s0 o ho hmh hirr hrange hfresh hnoold hnowd) hst
-  have hm := conv_quiescent hC hquiet x hx
-  rcases hm with hm | hm
-  · exact absurd hm hxo
-  · exact ⟨hm, hC.stored x hm⟩
+  have hC := conv_run hirr hrange _ ops
+    (conv_announce s0 o hint m hm ho hmh hirr hrange hfresh hnoold hnowd) hst
+  have hmk := conv_quiescent hC hquiet x hx
+  rcases hmk with hmk | hmk
+  · exact absurd hmk hxo
+  · exact ⟨hmk, hC.stored x hmk⟩
+
+/-- Every local route of `o` travels in one of the advertisements, so when all of them have
+    quiesced every connected agent holds every CIDR / domain / forward route `o` announces. -/
+theorem C12_converges_all (s0 : Net) (o : Node) (hint : List (List RAd)) (ops : List Op)
+    (ho : o < s0.n) (hmh : s0.maxHops = 0)
+    (hirr : ∀ x, linked s0 x x = false) (hrange : ∀ x p, linked s0 x p = true → p < s0.n)
+    (hfresh : ∀ x sq, (s0.nodes o).seq < sq → (o, sq) ∉ (s0.nodes x).seen)
+    (hnoold : ∀ f, f ∈ s0.flight → f.adv.origin = o → f.adv.seq ≤ (s0.nodes o).seq)
+    (hnowd : ∀ f, f ∈ s0.flight → f.adv.wd = false)
+    (hst : ∀ op, op ∈ ops → stable op = true)
+    (hquiet : ∀ f, f ∈ (run (step s0 (.announce o hint)) ops).flight →
+      f.adv.origin = o → f.adv.seq ≤ (s0.nodes o).seq) :
+    ∀ x, Reach (linked s0) o x → x ≠ o → ∀ r, r ∈ (s0.nodes o).locals → r.kind ≠ 3 →
+      ∃ e, e ∈ ((run (step s0 (.announce o hint)) ops).nodes x).tab ∧
+        e.kind = r.kind ∧ e.key = r.key ∧ e.origin = o ∧ (s0.nodes o).seq < e.seq := by
+  intro x hx hxo r hr hk
+  obtain ⟨m, hm, hrm⟩ := announce_covers (self := o) (st := s0.nodes o) (hint := hint)
+    (List.mem_append_left _ hr)
+  have hA := mem_announceAdvs hm
+  have hq : ∀ f, f ∈ (run (step s0 (.announce o hint)) ops).flight → keyOf f ≠ (o, m.seq) := by
+    intro f hf hkf
+    simp only [keyOf, Prod.mk.injEq] at hkf
+    have := hquiet f hf hkf.1
+    have := hA.seq_gt
+    omega
+  obtain ⟨_, h2⟩ := C12_converges s0 o hint ops m hm ho hmh hirr hrange hfresh hnoold hnowd hst hq x hx hxo
+  obtain ⟨e, he, h1, h2', h3, h4⟩ := h2 r hrm hk
+  exact ⟨e, he, h1, h2', h3, Nat.lt_of_lt_of_le hA.seq_gt h4⟩
 
 /-! ### the hypotheses hold after every history without third-party replays -/
 
@@ -632,9 +706,17 @@ theorem linkWF_step {n : Nat} {s : Net} {op : Op} (hW : LinkWF n s) : LinkWF n (
       · exact h a b hab
     · exact h a b hab
   · have hne : ∀ c d, op ≠ .connect c d := fun c d h' => hc ⟨c, d, h'⟩
-    have hl : (step s op).links = s.links := links_stepCore_eq (tick s) op hne
-    simp only [linked, hl] at hab
-    exact h a b hab
+    by_cases hd : ∃ c d, op = .disconnect c d
+    · obtain ⟨c, d, rfl⟩ := hd
+      simp only [step, stepCore] at hab
+      split at hab
+      · simp only [linked, List.contains_eq_mem, decide_eq_true_eq, tick_links] at hab h
+        exact h a b (by simpa [linked] using (List.mem_filter.1 hab).1)
+      · exact h a b hab
+    · have hnd : ∀ c d, op ≠ .disconnect c d := fun c d h' => hd ⟨c, d, h'⟩
+      have hl : (step s op).links = s.links := links_stepCore_eq (tick s) op hne hnd
+      simp only [linked, hl] at hab
+      exact h a b hab
 
 theorem linkWF_run (n mh : Nat) (L : Node → List RAd) (ops : List Op) :
     ∀ a b, linked (run (init n mh L) ops) a b = true → a ≠ b ∧ b < n :=
@@ -652,36 +734,33 @@ theorem nowd_run (s : Net) (ops : List Op) (h0 : ∀ f, f ∈ s.flight → f.adv
     · intro f hf
       cases flight_step hf with
       | old h => exact h0 f h
-      | ann hop ha hd hadv => rw [hadv]; rfl
+      | ann hint hop ha hd hadv => exact (mem_announceAdvs hadv).wd
       | wdr hop ha hcidr hd hadv => exact absurd hop (hnw op List.mem_cons_self _)
       | fwd a m hm hl ha hb hd hne hns hself hseen hsb hlim hadv =>
         rw [hadv, fwdAdv_wd]; exact h0 _ hm
-      | rep ord hop ha hb hl hadv =>
-        obtain ⟨o, sq, _, _, hm⟩ := mem_replayAdvs hadv
-        rw [hm]; rfl
+      | rep ord hop ha hb hl hadv => exact (mem_replayAdvs hadv).wd
     · intro o ho; exact hnw o (List.mem_cons_of_mem _ ho)
 
-/-- `C12_converges` for an announcement made after any history without third-party replays and
-    without hop limit: freshness of the sequence number is then a theorem (C14), not a hypothesis. -/
+/-- `C12_converges_all` for an announcement made after any history without third-party replays,
+    without withdrawals and without hop limit: freshness of the sequence numbers is then a theorem
+    (C14), not a hypothesis. -/
 theorem C12_converges_run (n : Nat) (L : Node → List RAd) (pre ops : List Op) (o : Node)
+    (hint : List (List RAd))
     (ho : o < n) (hb : benignRun (init n 0 L) pre = true)
     (hnw : ∀ op, op ∈ pre → ∀ a, op ≠ .withdraw a)
     (hst : ∀ op, op ∈ ops → stable op = true)
-    (hquiet : ∀ f, f ∈ (run (step (run (init n 0 L) pre) (.announce o)) ops).flight →
-      keyOf f ≠ (o, ((run (init n 0 L) pre).nodes o).seq + 1)) :
-    ∀ x, Reach (linked (run (init n 0 L) pre)) o x → x ≠ o →
-      (o, ((run (init n 0 L) pre).nodes o).seq + 1) ∈
-        ((run (step (run (init n 0 L) pre) (.announce o)) ops).nodes x).seen ∧
-      ∀ r, r ∈ L o → r.kind ≠ 3 →
-        ∃ e, e ∈ ((run (step (run (init n 0 L) pre) (.announce o)) ops).nodes x).tab ∧
-          CopyOf o (((run (init n 0 L) pre).nodes o).seq + 1) r e := by
+    (hquiet : ∀ f, f ∈ (run (step (run (init n 0 L) pre) (.announce o hint)) ops).flight →
+      f.adv.origin = o → f.adv.seq ≤ ((run (init n 0 L) pre).nodes o).seq) :
+    ∀ x, Reach (linked (run (init n 0 L) pre)) o x → x ≠ o → ∀ r, r ∈ L o → r.kind ≠ 3 →
+      ∃ e, e ∈ ((run (step (run (init n 0 L) pre) (.announce o hint)) ops).nodes x).tab ∧
+        e.kind = r.kind ∧ e.key = r.key ∧ e.origin = o ∧ ((run (init n 0 L) pre).nodes o).seq < e.seq := by
   have hI := run_induction_benign (P := MM.C14.SeqInv) _ pre (MM.C14.seqInv_init n 0 L) hb
     (fun s op hI hb => MM.C14.seqInv_step hI hb)
   have hwf := linkWF_run n 0 L pre
   have hn : (run (init n 0 L) pre).n = n := run_n _ _
   have hloc : ((run (init n 0 L) pre).nodes o).locals = L o := by
     rw [locals_run]; exact initNode_locals o (L o)
-  have := C12_converges (run (init n 0 L) pre) o ops (by rw [hn]; exact ho) (run_maxHops _ _)
+  have := C12_converges_all (run (init n 0 L) pre) o hint ops (by rw [hn]; exact ho) (run_maxHops _ _)
     (by
       intro x
       cases h : linked (run (init n 0 L) pre) x x with
@@ -690,16 +769,14 @@ theorem C12_converges_run (n : Nat) (L : Node → List RAd) (pre ops : List Op) 
     (by intro x p h; rw [hn]; exact (hwf x p h).2)
     (MM.C14.C14_partial n 0 L pre hb o).1
     (by
-      intro f hf hk
+      intro f hf hfo
       have := hI.flight f hf
-      simp only [keyOf, Prod.mk.injEq] at hk
-      rw [hk.1, hk.2] at this
-      omega)
+      rw [hfo] at this
+      exact this)
     (nowd_run _ pre (by intro f hf; simp [init] at hf) hnw)
     hst hquiet
-  intro x hx hxo
-  obtain ⟨h1, h2⟩ := this x hx hxo
-  exact ⟨h1, fun r hr hk => h2 r (by rw [hloc]; exact hr) hk⟩
+  intro x hx hxo r hr hk
+  exact this x hx hxo r (by rw [hloc]; exact hr) hk
 
 /-- Non-vacuity: ring 0-1-2-3-0 brought up with local table exchange, agent 0 (two routes)
     announces, the frames are delivered in an arbitrary order with a duplicate; the final state is
@@ -707,7 +784,7 @@ theorem C12_converges_run (n : Nat) (L : Node → List RAd) (pre ops : List Op) 
 def ringLocals : Node → List RAd := fun x => if x = 0 then [⟨0, 1, 0⟩, ⟨1, 2, 4⟩] else []
 
 def ringPre : List Op := [
-  .connect 0 1, .replay 0 1 [0], .connect 1 2, .connect 2 3, .connect 3 0, .replay 0 3 [0],
+  .connect 0 1, .replay 0 1 [], .connect 1 2, .connect 2 3, .connect 3 0, .replay 0 3 [],
   .deliver 0 1 0, .deliver 0 3 0]
 
 def ringSched : List Op := [
@@ -718,9 +795,10 @@ example : benignRun (init 4 0 ringLocals) ringPre = true := by decide
 example : ∀ op, op ∈ ringPre → ∀ a, op ≠ .withdraw a := by
   intro op hop a h; subst h; simp [ringPre] at hop
 example : ∀ op, op ∈ ringSched → stable op = true := by decide
-example : (run (step (run (init 4 0 ringLocals) ringPre) (.announce 0)) ringSched).flight.all
-    (fun f => keyOf f != (0, ((run (init 4 0 ringLocals) ringPre).nodes 0).seq + 1)) = true := by decide
-example : (((run (step (run (init 4 0 ringLocals) ringPre) (.announce 0)) ringSched).nodes 2).tab.map
+example : (run (step (run (init 4 0 ringLocals) ringPre) (.announce 0 [])) ringSched).flight.all
+    (fun f => f.adv.origin != 0 || decide (f.adv.seq ≤ ((run (init 4 0 ringLocals) ringPre).nodes 0).seq)) = true := by
+  decide
+example : (((run (step (run (init 4 0 ringLocals) ringPre) (.announce 0 [])) ringSched).nodes 2).tab.map
     (fun e => (e.kind, e.key, e.origin, e.seq))) = [(0, 1, 0, 5), (1, 2, 0, 5)] := by decide
 
 end MM.C12
